@@ -1,6 +1,7 @@
 (** Property C14 -- no scrolled-off line is lost, duplicated, reordered or altered.
     Only pinned statements, closed by [exact], with their assumptions printed. *)
-From Avt Require Import Oracles.Rel Proofs.Inv Proofs.ParamDT Proofs.ParamChop Proofs.Collector.
+From Avt Require Import Oracles.Rel Proofs.Inv Proofs.ParamDT Proofs.ParamChop Proofs.Collector Proofs.CollectorChunks.
+From Avt Require Import Gen.BufFns Proofs.BufTie.
 
 (** For every size, every limit L and every session of feed_str calls from the initial state without RIS (no resize) that ends on the primary screen: the lines handed out through Changes.scrollback over the session, followed by the final lines(), are exactly the lines() of the unlimited-scrollback run - same order, each once, cell for cell. *)
 Theorem C14_stream : forall c r L ss vI outsI vL outsL, session_ris_free (vt_new c r None) ss -> run_session (vt_new c r None) ss = Ok (vI, outsI) -> run_session (vt_new c r (Some L)) ss = Ok (vL, outsL) -> active (vterm vL) = Primary -> concat (map o_drained outsL) ++ lines (buf (vterm vL)) = lines (buf (vterm vI)).
@@ -26,3 +27,15 @@ Theorem C14_collector : forall c r L ss vI outsI vL outsL, session_ris_free (vt_
 Proof. exact C14_collector. Qed.
 Check C14_collector : forall c r L ss vI outsI vL outsL, session_ris_free (vt_new c r None) ss -> run_session (vt_new c r None) ss = Ok (vI, outsI) -> run_session (vt_new c r (Some L)) ss = Ok (vL, outsL) -> active (vterm vL) = Primary -> strip_empty_tail (collector_total outsL (lines (buf (vterm vL)))) = strip_empty_tail (collector_total outsI (lines (buf (vterm vI)))).
 Print Assumptions C14_collector.
+
+(** SOURCE TIE BY PROOF: the function is REGENERATED from the Rust source on every run (Gen/BufFns.v, translate/buf2coq.py: slice and Vec idioms into the model's list primitives, every Rust panic condition as a guard) and the hand-written model function is proved equal to it (=~ : equal up to the panic-site number) - an edit to the Rust function breaks this theorem (Buffer::gc / trim_scrollback) *)
+Theorem C14_source_gc : forall b, res_map drained (g_buffer_gc b) =~ buf_gc b.
+Proof. exact tie_buffer_gc. Qed.
+Check C14_source_gc : forall b, res_map drained (g_buffer_gc b) =~ buf_gc b.
+Print Assumptions C14_source_gc.
+
+(** ... and for every chunking: any two limits, any two ways of cutting the same character stream *)
+Theorem C14_collector_any : forall c r L1 L2 ss1 ss2 v1 outs1 v2 outs2, concat ss1 = concat ss2 -> session_ris_free (vt_new c r None) ss1 -> session_ris_free (vt_new c r None) ss2 -> run_session (vt_new c r L1) ss1 = Ok (v1, outs1) -> run_session (vt_new c r L2) ss2 = Ok (v2, outs2) -> active (vterm v1) = Primary -> strip_empty_tail (collector_total outs1 (lines (buf (vterm v1)))) = strip_empty_tail (collector_total outs2 (lines (buf (vterm v2)))).
+Proof. exact C14_collector_any. Qed.
+Check C14_collector_any : forall c r L1 L2 ss1 ss2 v1 outs1 v2 outs2, concat ss1 = concat ss2 -> session_ris_free (vt_new c r None) ss1 -> session_ris_free (vt_new c r None) ss2 -> run_session (vt_new c r L1) ss1 = Ok (v1, outs1) -> run_session (vt_new c r L2) ss2 = Ok (v2, outs2) -> active (vterm v1) = Primary -> strip_empty_tail (collector_total outs1 (lines (buf (vterm v1)))) = strip_empty_tail (collector_total outs2 (lines (buf (vterm v2)))).
+Print Assumptions C14_collector_any.
